@@ -19,8 +19,10 @@ def random_cases(rng, n_grammars, per_grammar, opts=None, cfgf=None):
         cfg = cfgf(rng) if cfgf else D.default_cfg(
             skipws=rng.random() < 0.7, autoinit=rng.random() < 0.6, regroup=rng.random() < 0.4,
             ws=G.codes(rng.choice(["", "", " ", " \n", "\t "])))
+        if not cfg["ws"] and rng.random() < 0.06:
+            cfg["wsnone"] = True           # ws='' given: nothing is whitespace, comments are still skipped
         if rng.random() < 0.2:
-            cfg["userclasses"] = True
+            cfg["userclasses"] = rng.choice([True, True, "classattrs"])
         sg = G.SentenceGen(rng, g)
         has_c = any(r["name"] == "Comment" for r in g["rules"])
         for k in range(per_grammar):
